@@ -255,6 +255,7 @@ class Evaluator:
         self.fn_registry: Dict[str, Any] = {}         # lambda / nested def key -> (node, defining function, defining env)
         self._module_consts: Dict[Tuple[str, str], Any] = {}
         self.in_registry: Dict[Any, Any] = {}        # key of an `x in c` atom -> (x value, c value)
+        self.vec_compare: Dict[Any, Any] = {}        # key of a vector == / != vector guard -> (np.all reading, np.any reading)
         self.comp_registry: Dict[str, Any] = {}      # all(...)/any(...) over a generator: (kind, iter value, element symbol, element guard)
 
     def module_constant(self, mod: Module, name: str):
@@ -1152,8 +1153,14 @@ class Frame:
             return g if pos else g_not(g)
         if isinstance(a, Vec) or isinstance(b, Vec):
             if opname in ("==", "!=") and isinstance(a, Vec) and isinstance(b, Vec) and len(a.items) == len(b.items):
-                g = g_and(*[self.compare1(ast.Eq(), x, y, node) for x, y in zip(a.items, b.items)])
-                return g if opname == "==" else g_not(g)
+                eqs = [self.compare1(ast.Eq(), x, y, node) for x, y in zip(a.items, b.items)]
+                g = g_and(*eqs)
+                if opname == "==":
+                    self.ev.vec_compare[g.key] = (g, g_or(*eqs))
+                    return g
+                ne = g_not(g)
+                self.ev.vec_compare[ne.key] = (g_and(*[g_not(q) for q in eqs]), ne)
+                return ne
             # element-wise comparison of a vector with a scalar: opaque mask
             return g_atom(("cmp", opname, vkey(a), vkey(b)))
         ra, rb = ev.to_rat(a), ev.to_rat(b)
